@@ -128,7 +128,7 @@ func runC33(c *core.Ctx) {
 						if k, ok := an.ConstInt(bo.Y); ok && k == 1 {
 							if bo.X == ssa.Value(loopPhi) {
 								okStep = true
-							} else if strings.Contains(an.Canon(bo.X), "snapshotIndex") {
+							} else if isRestoredSnapshotIndex(fn, bo.X, 0) {
 								okInit = true
 							}
 						}
